@@ -25,10 +25,17 @@ Property clause → theorem  (model: `Comdex/Model/Liquidation.lean`, both gener
       `C09.two_sweeps_if_one_shift`, `C09.unsafe_processed_is_seized` (a position handed to the step IS seized when
       liquidation and the auction type are enabled, prices active, no emergency control).
 * "seizure moves exactly the recorded collateral into auction custody and opens exactly one auction for it"
-    → `C09.seize_moves_exactly_collateral`, `C09.seize_opens_one_auction` (vault seizures, both generations),
-      `C09.borrow_step_atomic` (a borrow step does nothing or the complete seizure) and, for whole blocks and messages,
-      `C09.flagged_borrow_is_backed` (since fix c15713f: every borrow flagged by a hook or message has a new locked vault and
-      a new auction; a failing borrow leaves no writes: `C09.failing_step_leaves_no_writes`).
+    → `C09.seize_moves_exactly_collateral` (vaults, both generations: the WHOLE recorded collateral moves, is the amount on the
+      locked vault and on the auction, never exceeds custody; debt / fee / bonus / target / ratio on the locked vault as the code
+      computes them after booking the interest; lend accounting untouched), `C09.seize_opens_one_auction`,
+      `C09.borrow_step_atomic` (generation-2 borrow: pledged amount pool → auction, cTokens burnt, fee and bonus on the principal,
+      target = principal + fee, `TotalBorrowed` / `TotalLend` / lend position reduced by exactly what left),
+      `C09.flagged_borrow_is_backed`, `C09.failing_step_leaves_no_writes`; generation-1 borrow sell-off:
+      `C09.v1_selloff_records` and — FALSE for the transfers — `C09.v1_selloff_can_exceed_collateral_counterexample` (D33).
+* accrual: `C09.vault_safe_after_accrual_not_seized`, `C09.vault_decision_is_on_recorded_debt` (the vault decision ignores
+  interest not yet booked), `C09.borrow_decision_after_accrual`.
+* emergency controls and whitelisting: `C09.safe_never_seized` now carries `GuardsOff` for every removed vault and the kill
+  switch / whitelisting for every flagged borrow; `C09.guarded_vault_never_seized`, `C09.guards_reject`.
 -/
 namespace Comdex.C09
 open Comdex Comdex.Liquidation
@@ -513,6 +520,43 @@ theorem seize_opens_one_auction :
     rcases seize_moves_exactly_collateral.2 e a v w w' hnn h with h | ⟨p, k, _, _, _, hv, _⟩
     · exact Or.inl h
     · exact Or.inr ⟨hv.2.2.2.2.2.2.2.2.1, hv.2.2.2.2.2.2.2.2.2.1, _, _, hv.2.2.2.2.2.2.2.2.2.2.2, hv.2.2.2.2.2.2.2.2.2.2.1, rfl, rfl, rfl, rfl, rfl⟩
+
+/-! ### generation 1: the borrow sell-off -/
+
+/-- **What the generation-1 sell-off keeps consistent**: the collateral left on the locked vault / the borrow and the
+reduction of the lend position (and of `TotalLend`) add up to the collateral the position held; nothing is negative.
+(The TRANSFERS `toAuction`, `toReserve` and the burnt cTokens `totalDeduction` are not capped — next theorem.) -/
+theorem v1_selloff_records (i : SellOffIn) (o : SellOffOut) (h : sellOffV1 i = some o) (hin : 0 ≤ i.amountIn) :
+    0 ≤ o.newAmountIn ∧ o.newAmountIn + o.lendReduction = i.amountIn ∧ o.lendReduction ≤ i.amountIn ∧
+    0 ≤ o.toAuction ∧ 0 ≤ o.toReserve ∧ 0 ≤ o.totalDeduction ∧
+    (o.totalDeduction < i.amountIn → o.lendReduction = o.totalDeduction) := by
+  unfold sellOffV1 at h
+  split at h
+  · cases h
+  · simp only at h
+    split at h
+    · cases h
+    · split at h
+      · cases h
+      · split at h
+        · cases h
+        · split at h
+          · cases h
+          · rename_i hneg
+            simp only [Option.some.injEq] at h
+            subst h
+            simp only
+            split <;> omega
+
+/-- **The generation-1 sell-off can move more collateral than the position held** (found on the real code by the harness,
+`UpdateLockedBorrows` called on a branch): collateral 1 083 074 820 at price 1.66, debt 892 889 230 at price 2.00 (ratio 0.993),
+LTV 0.81, bonus 0.05: 1 394 003 545 units are sent pool → auction account and as many cTokens burnt, the records are capped
+at zero. The excess comes out of the pool, i.e. from the other lenders. -/
+theorem v1_selloff_can_exceed_collateral_counterexample :
+    ∃ o, sellOffV1 { amountIn := 1083074820, updatedOut := 892889230, pIn := 1660000, pOut := 2000000, dIn := 1000000, dOut := 1000000,
+                     c := 810000000000000000, pen := 0, bon := 50000000000000000 } = some o ∧
+      o.toAuction = 1394003545 ∧ o.toAuction > 1083074820 ∧ o.totalDeduction = 1394003545 ∧ o.newAmountIn = 0 ∧ o.lendReduction = 1083074820 := by
+  exact ⟨_, rfl, by decide, by decide, by decide, by decide, by decide⟩
 
 /-! ## non-vacuity -/
 
